@@ -5,7 +5,7 @@
 //! `200*(n+16)` ticks and `8*(n+4)` events; the run ends in StreamEnd or exactly one error and
 //! the iterator is fused afterwards.
 
-use crate::c10::{event_budget, work_budget, DRAWN_CAPS};
+use crate::c10::{event_budget, work_budget};
 use crate::case::{Case, Client, Outcome};
 use crate::clock::{self, Probe};
 use crate::gen::{self, Corpus, Gen, Swarm};
@@ -41,15 +41,11 @@ pub fn draw_input(r: &mut SplitMix64) -> InputKind {
         2 | 3 => InputKind::Buffered,
         4 => InputKind::BufferedBare,
         5..=8 => {
-            let cap = if r.chance(1, 2) {
-                *r.pick(&[8usize, 16, 64, 128])
-            } else {
-                *r.pick(&DRAWN_CAPS)
-            };
+            let cap = if r.chance(1, 3) { *r.pick(&[8usize, 16, 64, 128]) } else { Gen::draw_capacity(r) };
             let pol = *r.pick(&[Policy::PushBack, Policy::Leave, Policy::PerCall]);
             InputKind::Ring(cap, pol)
         }
-        _ => InputKind::Slice(*r.pick(&[8usize, 9, 16, 17, 64, 128, 1000])),
+        _ => InputKind::Slice(Gen::draw_capacity(r)),
     }
 }
 
